@@ -213,6 +213,13 @@ Lemma reset_clears_cdata_flags : forall e,
   (e_in_cdata (enc_reset_fixed e) = false /\ e_in_content (enc_reset_fixed e) = false /\ e_cdata (enc_reset_fixed e) = None /\
    e_indent (enc_reset_fixed e) = 0).
 Proof. destruct e; repeat split; reflexivity. Qed.
+(* both resets drop the output and the HEADER buffer unconditionally — in particular in Flow Mode, where the header is built
+   only when output_header is NULL: a header kept across a reset would be written in front of the next document *)
+Lemma reset_clears_output_header : forall e,
+  (e_output_header (enc_reset e) = None /\ e_output (enc_reset e) = None) /\
+  (e_output_header (enc_reset_fixed e) = None /\ e_output (enc_reset_fixed e) = None) /\
+  e_flow_mode (enc_reset_fixed e) = e_flow_mode e.
+Proof. destruct e; repeat split; reflexivity. Qed.
 (* the reset as it is never is: the string-table list is NULL where creation allocates one *)
 Lemma reset_is_never_fresh : forall e, enc_reset e <> enc_fresh (e_settings e).
 Proof. intros e H. apply (f_equal e_strstbl) in H. destruct e; discriminate H. Qed.
